@@ -4,6 +4,7 @@ import (
 	"fmt"
 	"go/token"
 	"go/types"
+	"strings"
 
 	"golang.org/x/tools/go/ssa"
 )
@@ -240,4 +241,46 @@ func runC15(c *Ctx) {
 	// ---- R15.5 / R15.6
 	c.cleanupCannotBlock("R15.5")
 	c.exitCleanup("R15.6")
+
+	// ---- R15.7: handlers run on their own goroutine: a handler on the frame executor keeps frames from
+	// being executed, the reader then blocks on the full queue, the close of the connection is never seen and
+	// nothing is cancelled
+	c.rule("R15.7", "every handler runs on its own goroutine, never on the frame executor")
+	if invs := c.dispInvokes(); len(invs) == 0 {
+		c.und("R15.7", "handler goroutine", "-", "no dispatcher invocation found")
+	} else {
+		for _, in := range invs {
+			c.check(c.onOwnGoroutine(in), "R15.7", fmt.Sprintf("%s: handler goroutine", fname(outermost(in.Parent()))), c.ipos(in), "own goroutine",
+				"a handler (e.g. of a notification) runs on the frame executor itself: while it runs no frame is executed, the reader blocks once the queue is full, the peer's disconnect is never seen and the handler's context is never cancelled")
+		}
+	}
+
+	// ---- R15.8: the context-cancelled arm must not wait for anything
+	c.rule("R15.8", "the loop's context-cancelled arm returns without taking a lock, writing to the socket or sending on a channel")
+	if arm, ok := w.Arms["ctx"]; !ok || arm.Body == nil {
+		c.und("R15.8", "context arm of the connection loop", "-", "not recovered")
+	} else {
+		li := p.lockInfo()
+		_ = li
+		blocking := func(in ssa.Instruction) bool {
+			switch x := in.(type) {
+			case *ssa.Send:
+				return true
+			case *ssa.Select:
+				return x.Blocking
+			case *ssa.Call:
+				if _, op := p.lockOp(x); op == 1 {
+					return true
+				}
+				n := calleeName(x)
+				if strings.HasPrefix(n, "(*"+gorilla+".Conn).") && gorillaWriteSide[methodOf(x)] {
+					return true
+				}
+			}
+			return false
+		}
+		atEnd := func(in ssa.Instruction) bool { return isReturn(in) || (p.boundary != nil && p.boundary[in]) }
+		wv := reachFromBlock(arm.Body, blocking, atEnd)
+		c.check(wv == nil, "R15.8", fmt.Sprintf("%s: context-cancelled arm", fname(r.FnLoop)), c.ipos(arm.Body.Instrs[0]), "returns at once", "when its context is cancelled the loop first waits for something (the write lock, a socket write, a channel): a writer stuck on a stalled peer holds that lock, so the loop never returns and its cleanup (cancelling handlers, failing calls, closing the socket) never runs")
+	}
 }
